@@ -184,7 +184,7 @@ def grid_configs(tier: str, seed: int, scheds=("lpsd", "ltf", "vectorized", "new
     n_rand = 1500 if tier == "quick" else 12000
 
     def mk(N, on, od, bn, bd, Lmin, J, Kd, s):
-        fs = rnd.choice([float(N), 1.0, 0.75 * N, 2.0, 1000.0, 0.1])
+        fs = rnd.choice([float(N), 1.0, 0.75 * N, 2.0, 1000.0, 0.1, 1e-7, 3e8])
         return dict(N=N, fs=fs, on=on, od=od, bn=bn, bd=bd, Lmin=Lmin, Jdes=J, Kdes=Kd, sched=s)
     for _ in range(n_small):
         N = rnd.choice(small)
